@@ -60,6 +60,8 @@ def pcanon_cfg(v):
             return ['obj', name, d]
         if name == 'LabObjSet':
             return ['obj', 'LabObjSet', {'tags': sorted(kw['tags'])}]
+        if name == 'LabObjDerived':
+            return ['obj', 'LabObjDerived', {'root': pcanon_cfg(kw['root'])}]
         if name == 'LabChainObj':
             return ['obj', 'LabChainObj', {'a': pcanon_cfg(kw['a']), 'inited': True}]
         return ['obj', name, {'x': pcanon_cfg(kw['x'])}]
@@ -89,6 +91,8 @@ def received_cfg(v, gv):
                                       'verbose': received_cfg(kw.get('verbose', False), gv)}]
         if name == 'LabObjSet':
             return ['obj', 'LabObjSet', {'tags': sorted(kw['tags'])}]
+        if name == 'LabObjDerived':
+            return ['obj', 'LabObjDerived', {'root': received_cfg(kw['root'], gv)}]
         if name == 'LabChainObj':
             return ['obj', 'LabChainObj', {'a': received_cfg(kw['a'], gv), 'inited': True}]
         return ['obj', name, {'x': received_cfg(kw['x'], gv)}]
